@@ -283,7 +283,7 @@ def chk_funnel(rng):
 
 # ---- 3. derivation: subtypes admit subsets and are recognised by their parents --------------------------------
 def chk_derivation(rng):
-    from pyasn1.type import univ, constraint as C, namedtype, tag, error
+    from pyasn1.type import univ, constraint as C, namedtype, tag, error, char
     from pyasn1 import error as perror
     from pyasn1.codec.der import encoder as de
     fails, n = [], 0
@@ -332,6 +332,46 @@ def chk_derivation(rng):
                                            'could be assigned to it', kind='kinds'))
     except Exception as e:
         fails.append(rec('derivation', 'comparing (1 | 5) with (1..5) raised %s' % type(e).__name__, kind='kinds'))
+    # ... also when one kind is a subclass of the other in the implementation (FROM is a kind of single-value list, SIZE a kind
+    # of range): IA5String ("T" | "F") does not take IA5String (FROM ("T" | "F")) -- which admits "TFT" -- for a subtype
+    for pa, pb, what in ((C.SingleValueConstraint('T', 'F'), C.PermittedAlphabetConstraint('T', 'F'), '("T"|"F") vs FROM("T"|"F")'),
+                         (C.ValueRangeConstraint(1, 3), C.ValueSizeConstraint(1, 3), '(1..3) vs SIZE(1..3)')):
+        for x, y in ((pa, pb), (pb, pa)):
+            n += 1
+            try:
+                X1, Y1 = char.IA5String(subtypeSpec=x), char.IA5String(subtypeSpec=y)
+                if x == y or not (x != y) or X1.isSameTypeWith(Y1) or X1.isSuperTypeOf(Y1):
+                    fails.append(rec('derivation', 'constraints of different kinds with the same operands are taken for equal / '
+                                                   'for a subtype: %s (%s first)' % (what, x.__class__.__name__), kind='kinds'))
+            except Exception as e:
+                fails.append(rec('derivation', 'comparing %s raised %s' % (what, type(e).__name__), kind='kinds'))
+    # value-list algebra: A + B is the union, A - B the difference (also when B reaches outside A)
+    import itertools as _it
+    pool = (1, 2, 3, 4)
+    subsets = [c for r in range(0, 4) for c in _it.combinations(pool, r)]
+    for a_ in subsets:
+        for b_ in subsets:
+            if not a_ or not b_:
+                continue
+            n += 1
+            try:
+                ca, cb = C.SingleValueConstraint(*a_), C.SingleValueConstraint(*b_)
+                for opname, cc, want in (('+', ca + cb, set(a_) | set(b_)), ('-', ca - cb, set(a_) - set(b_))):
+                    if not want:
+                        continue        # the empty value list: recorded finding (admits everything)
+                    got = set()
+                    for v in pool + (0, 5):
+                        try:
+                            cc(v)
+                            got.add(v)
+                        except perror.PyAsn1Error:
+                            pass
+                    if got != want:
+                        fails.append(rec('derivation', 'SingleValueConstraint%r %s SingleValueConstraint%r admits %r, the set '
+                                                       'operation gives %r' % (a_, opname, b_, sorted(got), sorted(want)), kind='algebra'))
+            except Exception as e:
+                fails.append(rec('derivation', 'value-list algebra %r, %r raised %s: %s' % (a_, b_, type(e).__name__, str(e)[:80]),
+                                 kind='algebra'))
     # an operand of a union is a subset of the union, not a superset
     n += 1
     a5 = C.SingleValueConstraint(5)
